@@ -45,6 +45,7 @@ class Folder:
         # effects(name, folded args) -> folded result: lets a rule record calls of output routines (write_char, write_n, ..) and continue with their success value
         self.effects = effects
         self.effects_names = effects_names or (lambda n: True)
+        self._eff_done = {}
         self.prog = prog
         self.max_depth = max_depth
         self._paths = {}
@@ -52,7 +53,10 @@ class Folder:
 
     def paths(self, fpath):
         if fpath not in self._paths:
-            self._paths[fpath] = Sym(self.prog, fpath).paths()
+            try:
+                self._paths[fpath] = Sym(self.prog, fpath).paths()
+            except Exception:
+                self._paths[fpath] = Sym(self.prog, fpath).paths(max_paths=400000)
         return self._paths[fpath]
 
     def ev(self, t, env, bind, depth):
@@ -188,12 +192,28 @@ class Folder:
             return _c(r)
         if k == "call":
             name = t[1]
-            if isinstance(name, str) and self.effects is not None:
-                r = self.effects(name, [self.ev(a, env, bind, depth) for a in t[2]]) if self.effects_names(name) else None
+            if isinstance(name, str) and self.effects is not None and self.effects_names(name):
+                # an output call is performed once, however often its term is re-evaluated while the path conditions of sibling paths are tested
+                ek = (t, tuple(sorted((k, v) for k, v in env.items())) if env else ())
+                try:
+                    if ek in self._eff_done:
+                        return self._eff_done[ek]
+                except TypeError:
+                    ek = None
+                r = self.effects(name, [self.ev(a, env, bind, depth) for a in t[2]])
                 if r is not None:
+                    if ek is not None:
+                        self._eff_done[ek] = r
                     return r
             if isinstance(name, str) and name.startswith("std::convert::num::<impl std::convert::From<") and name.endswith(">::from"):
                 return _ident(self, [self.ev(a, env, bind, depth) for a in t[2]])
+            if isinstance(name, str) and name not in STD_MODELS and name.startswith("<") and (name.endswith(" as std::cmp::PartialEq>::eq") or name.endswith(" as std::cmp::PartialEq>::ne")):
+                # derived equality of plain data (unit-variant enums, small structs): structural comparison of the folded values
+                args = [self.ev(a, env, bind, depth) for a in t[2]]
+                try:
+                    return _eq_model(name.endswith("::ne"))(self, args)
+                except Unknown:
+                    pass
             if isinstance(name, str) and name in STD_MODELS:
                 args = [self.ev(a, env, bind, depth) for a in t[2]]
                 return STD_MODELS[name](self, args)
@@ -631,6 +651,8 @@ STD_MODELS = {
     "<std::option::Option<T> as std::cmp::PartialEq>::ne": _eq_model(True),
     "<weekday::Weekday as std::cmp::PartialEq>::eq": _eq_model(False),
     "<weekday::Weekday as std::cmp::PartialEq>::ne": _eq_model(True),
+    "std::cmp::PartialEq::ne": _eq_model(True),
+    "std::cmp::PartialEq::eq": _eq_model(False),
     "std::ops::RangeInclusive::<Idx>::new": lambda self, args: ("agg", "adt", "std::ops::RangeInclusive", "RangeInclusive", (args[0], args[1], _c(False)), 0),
     "core::slice::<impl [T]>::binary_search": _binary_search,
     "std::ops::RangeInclusive::<Idx>::contains": _range_incl_contains,
